@@ -57,4 +57,108 @@ contract Proxy.ServeHTTP
   modifies target.ScrapeStatus.*, tkestack.io/kvass/pkg/scrape.Scraper.*, tkestack.io/kvass/pkg/scrape.StatisticsSeriesResult.*, tkestack.io/kvass/pkg/scrape.MetricSamplesInfo.*,
            mapof(tkestack.io/kvass/pkg/scrape.StatisticsSeriesResult.MetricsTotal), elems(target.ScrapeStatus.lastSeries) at {},
            gOutLen, gOutData, gCode, gAttempts, gStatusUpdates, gKept, gMetricTotal, gMetricScraped, gClock
+
+// ---------- the target manager (C10) ----------
+// every assigned target is a real object (what the coordinator sends); hashes identify targets uniquely in one request
+pred wfTargets(ts) = forall job, l in ts :: forall tar in l :: tar != nil
+// (stated with a ghost function from hash to target: such a function exists exactly when equal hashes mean the same target)
+ghost global gTargetOf seq[int]
+pred uniqueHashes(ts) = forall j1, l1 in ts :: forall x in l1 :: gTargetOf[x.Hash] == x
+
+// representation invariant of the bookkeeping: one non-nil status per assigned hash, and idle-since set exactly when empty
+pred statusOnlyAssigned(t) = forall h in t.targets.Status :: exists job in t.targets.Targets :: exists i in 0..len(t.targets.Targets[job]) :: t.targets.Targets[job][i].Hash == h
+pred assignedHaveStatus(t) = forall job, l in t.targets.Targets :: forall tar in l :: (tar.Hash in t.targets.Status && t.targets.Status[tar.Hash] != nil)
+pred idleIffEmpty(t) = (t.targets.IdleAt == nil) == (len(t.targets.Status) != 0)
+pred statusEntriesNonNil(t) = t.targets.Status != nil && (forall h, st in t.targets.Status :: st != nil)
+
+// distinct hashes have distinct status objects
+pred injectiveStatus(m) = forall h1, s1 in m :: forall h2, s2 in m :: (h1 != h2 ==> s1 != s2)
+
+// what has been established for an assigned target once the loop has processed it (os = the previous status map)
+pred processed(status, os, tar) = tar.Hash in status && status[tar.Hash] != nil
+    && status[tar.Hash].TargetState == tar.TargetState
+    && (tar.Hash in os ==> status[tar.Hash] == os[tar.Hash]
+          && status[tar.Hash].ScrapeTimes == ite(old(os[tar.Hash].TargetState) == "" && tar.TargetState == "in_transfer", 0, old(os[tar.Hash].ScrapeTimes)))
+    && (!(tar.Hash in os) ==> fresh(status[tar.Hash]) && status[tar.Hash].Health == "unknown" && status[tar.Hash].ScrapeTimes == 0
+          && status[tar.Hash].Series == tar.Series && status[tar.Hash].TotalSeries == tar.TotalSeries)
+
+// entries of the new map come from the old map (same object) or are fresh; untouched old entries are unchanged
+pred provenance(status, os) = (forall h, st in status :: st != nil && (h in os ==> st == os[h]) && (!(h in os) ==> fresh(st)))
+    && (forall h, st in os :: !(h in status) ==> (st.TargetState == old(st.TargetState) && st.ScrapeTimes == old(st.ScrapeTimes)))
+
+// witnesses for "every status entry belongs to an assigned target": where the hash was seen (ghost, set when the entry is made)
+ghost global gWJob seq[int]
+ghost global gWIdx seq[int]
+on insert_unowned TargetsInfo.Status(m, k, v) in TargetsManager.updateStatus
+   do gWJob = seqset(gWJob, k, job)
+   do gWIdx = seqset(gWIdx, k, idx2)
+
+pred witnessed(t, status, vis) = forall h in status :: (gWJob[h] in vis && gWJob[h] in t.targets.Targets && 0 <= gWIdx[h] && gWIdx[h] < len(t.targets.Targets[gWJob[h]])
+      && t.targets.Targets[gWJob[h]][gWIdx[h]].Hash == h)
+
+contract TargetsManager.updateStatus
+  requires t != nil && wfTargets(t.targets.Targets) && uniqueHashes(t.targets.Targets)
+  requires (forall h, st in t.targets.Status :: st != nil) && injectiveStatus(t.targets.Status)
+  ensures[C10] @exactly_the_assigned_hashes assignedHaveStatus(t) && witnessed(t, t.targets.Status, keys(t.targets.Targets)) && statusEntriesNonNil(t)
+  ensures[C10] @kept_targets_keep_their_status forall h, st in t.targets.Status :: (h in old(keys(t.targets.Status)) ==> st == old(t.targets.Status[h]))
+  ensures[C10] @new_targets_start_fresh forall job, l in t.targets.Targets :: forall tar in l :: (!(tar.Hash in old(keys(t.targets.Status))) ==>
+        (fresh(t.targets.Status[tar.Hash]) && t.targets.Status[tar.Hash].Health == "unknown" && t.targets.Status[tar.Hash].ScrapeTimes == 0
+         && t.targets.Status[tar.Hash].Series == tar.Series && t.targets.Status[tar.Hash].TotalSeries == tar.TotalSeries))
+  ensures[C10] @state_as_requested forall job, l in t.targets.Targets :: forall tar in l :: t.targets.Status[tar.Hash].TargetState == tar.TargetState
+  ensures[C10] @counter_restarts_on_transfer forall job, l in t.targets.Targets :: forall tar in l :: (tar.Hash in old(keys(t.targets.Status)) ==>
+        t.targets.Status[tar.Hash].ScrapeTimes == ite(old(t.targets.Status[tar.Hash].TargetState) == "" && tar.TargetState == "in_transfer", 0, old(t.targets.Status[tar.Hash].ScrapeTimes)))
+  ensures injectiveStatus(t.targets.Status)
+  ensures t.targets.Targets == old(t.targets.Targets) && t.targets.IdleAt == old(t.targets.IdleAt)
+  modifies TargetsManager.targets at {t}, target.ScrapeStatus.TargetState, target.ScrapeStatus.ScrapeTimes, target.ScrapeStatus.* at {},
+           tkestack.io/kvass/pkg/scrape.StatisticsSeriesResult.* at {}, mapof(tkestack.io/kvass/pkg/scrape.StatisticsSeriesResult.MetricsTotal) at {}, mapof(TargetsInfo.Status) at {},
+           net/url.URL.* at {}, gWJob, gWIdx
+  loop 1 invariant fresh(status) && status != nil && t.targets.Status == old(t.targets.Status) && t.targets.Targets == old(t.targets.Targets) && t.targets.IdleAt == old(t.targets.IdleAt)
+  loop 1 invariant provenance(status, t.targets.Status) && injectiveStatus(status)
+  loop 1 invariant forall jb in visited1 :: forall x in t.targets.Targets[jb] :: processed(status, t.targets.Status, x)
+  loop 1 invariant witnessed(t, status, visited1) && (forall jb in visited1 :: jb in t.targets.Targets)
+  loop 2 invariant fresh(status) && status != nil && t.targets.Status == old(t.targets.Status) && t.targets.Targets == old(t.targets.Targets) && t.targets.IdleAt == old(t.targets.IdleAt)
+  loop 2 invariant job in t.targets.Targets && job in visited1
+  loop 2 invariant provenance(status, t.targets.Status) && injectiveStatus(status)
+  loop 2 invariant forall jb in visited1 :: (jb != job ==> forall x in t.targets.Targets[jb] :: processed(status, t.targets.Status, x))
+  loop 2 invariant forall j in 0..idx2 :: processed(status, t.targets.Status, ts[j])
+  loop 2 invariant witnessed(t, status, visited1) && (forall jb in visited1 :: jb in t.targets.Targets) && ts == t.targets.Targets[job]
+  loop 2 invariant forall h in status :: (gWJob[h] != job || gWIdx[h] < idx2)
+
+// "The shard reports being idle since the moment its assignment became empty, keeps that instant across further
+// empty updates ..., and clears it as soon as a target is assigned" (C10)
+contract TargetsManager.updateIdleState
+  requires t != nil
+  ensures[C10] @idle_since_empty (len(t.targets.Status) == 0 && old(t.targets.IdleAt) == nil) ==> (t.targets.IdleAt != nil && fresh(t.targets.IdleAt))
+  ensures[C10] @idle_instant_kept (len(t.targets.Status) == 0 && old(t.targets.IdleAt) != nil) ==> t.targets.IdleAt == old(t.targets.IdleAt)
+  ensures[C10] @idle_cleared_on_assignment len(t.targets.Status) != 0 ==> t.targets.IdleAt == nil
+  ensures t.targets.Status == old(t.targets.Status) && t.targets.Targets == old(t.targets.Targets)
+  modifies TargetsManager.targets at {t}
+
+// representation invariant of the target manager: holds after construction and after every update => after any sequence
+pred invTargets(t) = statusEntriesNonNil(t) && injectiveStatus(t.targets.Status) && assignedHaveStatus(t)
+    && witnessed(t, t.targets.Status, keys(t.targets.Targets)) && idleIffEmpty(t)
+
+// callbacks (config injection, scrape manager) are assumed not to touch the manager's bookkeeping
+contract TargetsManager.doCallbacks
+  requires t != nil
+  modifies nothing
+contract TargetsManager.saveTargets
+  requires t != nil
+  modifies nothing
+
+contract TargetsManager.UpdateTargets
+  requires t != nil && req != nil && wfTargets(req.Targets) && uniqueHashes(req.Targets)
+  requires statusEntriesNonNil(t) && injectiveStatus(t.targets.Status)
+  ensures[C10] @invariant_after_every_update invTargets(t)
+  ensures[C10] @assignment_is_the_request t.targets.Targets == req.Targets
+  ensures[C10] @kept_targets_keep_their_status forall h, st in t.targets.Status :: (h in old(keys(t.targets.Status)) ==> st == old(t.targets.Status[h]))
+  ensures[C10] @state_as_requested forall job, l in req.Targets :: forall tar in l :: t.targets.Status[tar.Hash].TargetState == tar.TargetState
+  ensures[C10] @idle_instant_kept (len(t.targets.Status) == 0 && old(t.targets.IdleAt) != nil) ==> t.targets.IdleAt == old(t.targets.IdleAt)
+  modifies TargetsManager.targets at {t}, target.ScrapeStatus.TargetState, target.ScrapeStatus.ScrapeTimes, target.ScrapeStatus.* at {},
+           tkestack.io/kvass/pkg/scrape.StatisticsSeriesResult.* at {}, mapof(tkestack.io/kvass/pkg/scrape.StatisticsSeriesResult.MetricsTotal) at {}, mapof(TargetsInfo.Status) at {},
+           net/url.URL.* at {}, gWJob, gWIdx
+
+contract NewTargetsManager
+  ensures[C10] @constructor_state result != nil && statusEntriesNonNil(result) && injectiveStatus(result.targets.Status) && len(result.targets.Status) == 0 && len(result.targets.Targets) == 0 && assignedHaveStatus(result)
+  modifies TargetsManager.* at {}, mapof(TargetsInfo.Status) at {}, mapof(TargetsInfo.Targets) at {}
 @*/
